@@ -228,6 +228,26 @@ def generate(module, cfg, workers=1, simulate=None, extra=(), timeout=3600, env=
     return {"behaviours": behs, "states": gen, "distinct": dist, "wall": res["wall"], "out": out}
 
 
+def tlaps(module, timeout=900):
+    """Check the proofs of a module with the TLA+ proof system; returns (obligations, proved)."""
+    d = scratch()
+    shutil.copy(os.path.join(SPEC, module + ".tla"), d)
+    try:
+        p = subprocess.run(["tlapm", "--cleanfp", module + ".tla"], cwd=d, capture_output=True, text=True, timeout=timeout)
+        out = p.stdout + p.stderr
+    except (subprocess.TimeoutExpired, FileNotFoundError) as ex:
+        shutil.rmtree(d, ignore_errors=True)
+        raise MachineryError(f"tlapm could not check {module}: {ex}")
+    shutil.rmtree(d, ignore_errors=True)
+    m = re.search(r"All (\d+) obligations? proved", out)
+    if m:
+        return int(m.group(1)), int(m.group(1))
+    m = re.search(r"(\d+)/(\d+) obligations? failed", out)
+    if m:
+        return int(m.group(2)), int(m.group(2)) - int(m.group(1))
+    raise MachineryError(f"tlapm output not understood for {module}:\n" + out[-1500:])
+
+
 def sany(module):
     p = subprocess.run(["java", "-cp", JAR, "tla2sany.SANY", module + ".tla"], cwd=SPEC,
                        capture_output=True, text=True)
